@@ -1,14 +1,16 @@
 SPECIFICATION HSpec
 CONSTANTS
-  Ids = {1, 2, 3, 4}
+  Ids = {1, 2, 3}
   RecIds <- RecsIC
   RootId = 1
   PhenoId = 2
-  WithExtras = FALSE
+  WithExtras = TRUE
   WithPairs = TRUE
-  MaxFacts = 1
+  MaxFacts = 2
   EmitAll = TRUE
 INVARIANTS
+  PathsWellFormed
+  ChildNodesSane
   SimSymmetric
   SimBounds
   DistIsMin
